@@ -30,9 +30,9 @@ def PErr.bytes : PErr → Option Bytes
 
 /-- `AsTCPErrorPacket`: `some e` when the 9 bytes are an exception frame -/
 def asTCPErrorPacket (s : Slice) : PRes (Option PErr) :=
-  if s.len != 9 then .ok none else
+  if s.len ≠ 9 then .ok none else
   (s.idx 7).bind fun f =>
-  if f &&& 128 != 0 then
+  if f &&& 128 ≠ 0 then
     (s.rd16 0).bind fun tid =>
     (s.idx 6).bind fun unit =>
     (s.idx 8).bind fun code =>
@@ -41,9 +41,9 @@ def asTCPErrorPacket (s : Slice) : PRes (Option PErr) :=
 
 /-- `AsRTUErrorPacket` -/
 def asRTUErrorPacket (s : Slice) : PRes (Option PErr) :=
-  if s.len != 5 then .ok none else
+  if s.len ≠ 5 then .ok none else
   (s.idx 1).bind fun f =>
-  if f &&& 128 != 0 then
+  if f &&& 128 ≠ 0 then
     (s.idx 0).bind fun unit =>
     (s.idx 2).bind fun code =>
     .ok (some (.excR unit (f - 128) code))
@@ -59,11 +59,11 @@ def looksLike (s : Slice) (allowUnsupported : Bool) : Res Unit (Nat × Option PE
   if s.len < 8 then .ok (0, some .tooShortT) else
   (s.idx 2).bind fun d2 =>
   (s.idx 3).bind fun d3 =>
-  if !(d2 == 0 && d3 == 0) then .ok (0, some .notTCP) else
+  if ¬(d2 = 0 ∧ d3 = 0) then .ok (0, some .notTCP) else
   (s.rd16 4).bind fun pduLen =>
   if pduLen < 3 then .ok (0, some .notTCP) else
   (s.idx 7).bind fun fc =>
-  if fc == 0 then .ok (0, some .notTCP) else
+  if fc = 0 then .ok (0, some .notTCP) else
   let n := pduLen.toNat + 6
   if allowUnsupported then .ok (n, none) else
   if supportedFunctionCodes.contains fc then .ok (n, none) else
@@ -99,7 +99,7 @@ def parseByteCountRespTCP (mk : UInt8 → UInt8 → Bytes → Resp) (minLen : Na
     PRes (UInt16 × Resp) :=
   if s.len < minLen then .err .plain else
   (s.idx 8).bind fun bl =>
-  if s.len != 9 + bl.toNat then .err .plain else
+  if s.len ≠ 9 + bl.toNat then .err .plain else
   (s.rd16 0).bind fun tid =>
   (s.idx 6).bind fun unit =>
   (s.bytes 9 (9 + bl.toNat)).bind fun d =>
@@ -109,7 +109,7 @@ def parseByteCountRespRTU (mk : UInt8 → UInt8 → Bytes → Resp) (minLen : Na
     PRes Resp :=
   if s.len < minLen then .err .plain else
   (s.idx 2).bind fun bl =>
-  if s.len != 3 + bl.toNat + 2 then .err .plain else
+  if s.len ≠ 3 + bl.toNat + 2 then .err .plain else
   (s.idx 0).bind fun unit =>
   (s.bytes 3 (3 + bl.toNat)).bind fun d =>
   .ok (mk unit bl d)
@@ -118,7 +118,7 @@ def parseByteCountRespRTU (mk : UInt8 → UInt8 → Bytes → Resp) (minLen : Na
 def parseFixedRespTCP (mk : UInt8 → Slice → PRes Resp) (s : Slice) : PRes (UInt16 × Resp) :=
   if s.len < 12 then .err .plain else
   (s.rd16 4).bind fun pduLen =>
-  if s.len != 6 + pduLen.toNat then .err .plain else
+  if s.len ≠ 6 + pduLen.toNat then .err .plain else
   (s.rd16 0).bind fun tid =>
   (s.idx 6).bind fun unit =>
   (mk unit s).bind fun r =>
@@ -149,7 +149,7 @@ def mkWMultiResp (fc : UInt8) (off : Nat) (unit : UInt8) (s : Slice) : PRes Resp
 def parseSidRespTCP (s : Slice) : PRes (UInt16 × Resp) :=
   if s.len < 11 then .err .plain else
   (s.idx 8).bind fun n =>
-  if n == 0 then .err .plain else
+  if n = 0 then .err .plain else
   let statusIdx := 8 + n.toNat + 1
   if statusIdx ≥ s.len then .err .plain else
   (s.bytes 9 (9 + n.toNat)).bind fun id =>
@@ -165,7 +165,7 @@ def parseSidRespTCP (s : Slice) : PRes (UInt16 × Resp) :=
 def parseSidRespRTU (s : Slice) : PRes Resp :=
   if s.len < 7 then .err .plain else
   (s.idx 2).bind fun n =>
-  if n == 0 then .err .plain else
+  if n = 0 then .err .plain else
   let statusIdx := 2 + n.toNat + 1
   if statusIdx ≥ s.len - 2 then .err .plain else
   (s.bytes 3 (3 + n.toNat)).bind fun id =>
